@@ -434,6 +434,29 @@ P2P_AdvanceFrame(s, cells, inbox, now) ==
       s2 == P2P_Lift(r[1])
   IN <<[s2 EXCEPT !.out = <<>>], s2.out, IF s2.err # "" THEN "P" ELSE r[2], r[3]>>
 
+\* advance_frame_with_wait_timeout(W ms), the loop `while Instant::now() < deadline` at time t0 + j.
+\* arr[i] (i \in 1..W) = the packets <<from, msg>> that reach the socket while the call yields for the
+\* i-th time (the clock advances by one millisecond per yield).  -> <<s, result, requests, yields taken>>
+RECURSIVE P2P_WaitLoop(_, _, _, _, _, _, _)
+P2P_WaitLoop(s, cells, arr, t0, W, j, first) ==
+  IF j >= W THEN <<s, "ok", first, W>>
+  ELSE LET s1 == P2P_PollInner(s, IF j = 0 THEN <<>> ELSE arr[j], t0 + j)
+       IN IF s1.err # "" THEN <<s1, "P", <<>>, j>>
+          ELSE IF P2P_ConfirmedFrame(s1) >= s1.sl.cur      \* lockstep_current_frame_confirmed
+               THEN LET r == P2P_AdvanceAfterPoll(s1, cells, t0 + j) IN <<r[1], r[2], r[3], j>>
+               ELSE P2P_WaitLoop(s1, cells, arr, t0, W, j + 1, first)
+
+\* public: advance_frame_with_wait_timeout -> <<s, out, result, requests, yields taken>>
+\* (identical to advance_frame unless the session is in lockstep mode, the first attempt stalled and W > 0)
+P2P_AdvanceFrameWait(s, cells, inbox, now, W, arr) ==
+  LET s1 == P2P_PollInner([s EXCEPT !.out = <<>>], inbox, now)
+      r  == IF s1.err # "" THEN <<s1, "P", <<>>>> ELSE P2P_AdvanceAfterPoll(s1, cells, now)
+      s2 == P2P_Lift(r[1])
+      wait == s2.err = "" /\ r[2] = "ok" /\ s2.W = 0 /\ r[3] = <<>> /\ W > 0
+      w  == IF wait THEN P2P_WaitLoop(s2, cells, arr, now, W, 0, r[3]) ELSE <<s2, r[2], r[3], 0>>
+      s3 == P2P_Lift(w[1])
+  IN <<[s3 EXCEPT !.out = <<>>], s3.out, IF s3.err # "" THEN "P" ELSE w[2], w[3], w[4]>>
+
 \* public: disconnect_player -> <<s, result>>
 P2P_DisconnectPlayer(s, h, now) ==
   IF h \notin DOMAIN s.htype THEN <<s, "E:InvalidRequest">>
